@@ -18,6 +18,7 @@ import Homonim.Model.Sched
 import Homonim.Model.Cli
 import Homonim.Model.FuseImage
 import Homonim.Model.PartialMask
+import Homonim.Model.Cubic
 open Homonim
 
 def ints (ts : List String) : Option (List Int) := ts.mapM String.toInt?
@@ -89,8 +90,9 @@ def handleFit (toks : List String) : String :=
 def handleResample (toks : List String) : String :=
   match toks with
   | ms :: rest =>
-    let meth : Option Resampling := match ms with
-      | "average" => some .average | "nearest" => some .nearest | "bilinear" => some .bilinear | _ => none
+    let meth : Option (Resampling ⊕ Wide) := match ms with
+      | "average" => some (.inl .average) | "nearest" => some (.inl .nearest) | "bilinear" => some (.inl .bilinear)
+      | "cubic" => some (.inr .cubic) | "cubic_spline" => some (.inr .cubicSpline) | _ => none
     match meth, ints (rest.take 12), rest.drop 12 with
     | some meth, some [a, b, c, d, e, f, g, h, i, j, k, l], "V" :: vals =>
       let sr : Axis := ⟨a, b, c⟩; let sc : Axis := ⟨d, e, f⟩; let dr : Axis := ⟨g, h, i⟩; let dc : Axis := ⟨j, k, l⟩
@@ -100,7 +102,9 @@ def handleResample (toks : List String) : String :=
         let img : ImgO := fun r cc =>
           if 0 ≤ r ∧ r < c ∧ 0 ≤ cc ∧ cc < f then arr.getD (r.toNat * f.toNat + cc.toNat) none else none
         " ".intercalate ((List.range i.toNat).flatMap fun (jr : Nat) => (List.range l.toNat).map fun (jc : Nat) =>
-          showORat (resample2 meth sr sc dr dc img jr jc))
+          showORat (match meth with
+            | .inl m => resample2 m sr sc dr dc img jr jc
+            | .inr m => resampleWide m sr sc dr dc img jr jc))
       | none => "bad-args"
     | _, _, _ => "bad-args"
   | _ => "bad-args"
@@ -308,8 +312,12 @@ def handleMerge (toks : List String) : String :=
 def handleFuseImg (toks : List String) (srcGrid : Bool := false) (pmask : Bool := false) : String :=
   match toks with
   | ms :: kh :: kw :: us :: n0 :: n1 :: rest =>
+    let wide : Option Wide := match us with
+      | "cubic" => some .cubic | "cubic_spline" => some .cubicSpline | _ => none
     let ups : Option Resampling := match us with
-      | "nearest" => some .nearest | "bilinear" => some .bilinear | "average" => some .average | _ => none
+      | "nearest" => some .nearest | "bilinear" => some .bilinear | "average" => some .average
+      | "cubic" | "cubic_spline" => if srcGrid || pmask then none else some .nearest
+      | _ => none
     match parseModel ms, kh.toNat?, kw.toNat?, ups, parseRat n0, parseRat n1, ints (rest.take 12), rest.drop 12 with
     | some model, some kh, some kw, some ups, some n0, some n1, some [a, b, c, d, e, f, g, h, i, j, k, l], "S" :: vals =>
       let sr : Axis := ⟨a, b, c⟩; let sc : Axis := ⟨d, e, f⟩; let rr : Axis := ⟨g, h, i⟩; let rc : Axis := ⟨j, k, l⟩
@@ -323,7 +331,10 @@ def handleFuseImg (toks : List String) (srcGrid : Bool := false) (pmask : Bool :
         let p : ImagePair := ⟨sr, sc, rr, rc, mk sa c f, mk ra i l⟩
         " ".intercalate ((List.range c.toNat).flatMap fun (r : Nat) => (List.range f.toNat).map fun (cc : Nat) =>
           if pmask then (if (if srcGrid then p.partialValidSrcGrid model kh kw n0 n1 ups r cc else p.partialValid model kh kw n0 n1 r cc) then "1" else "0") else
-          showORat (if srcGrid then p.correctedSrcGrid model kh kw n0 n1 ups r cc else p.corrected model kh kw n0 n1 ups r cc))
+          showORat (if srcGrid then p.correctedSrcGrid model kh kw n0 n1 ups r cc else
+            match wide with
+            | some w => p.correctedWide model kh kw n0 n1 w r cc
+            | none => p.corrected model kh kw n0 n1 ups r cc))
       | _, _ => "bad-args"
     | _, _, _, _, _, _, _, _ => "bad-args"
   | _ => "bad-args"
